@@ -156,6 +156,17 @@ CLAIMED["C13"] = (
     "(DTR2:DTR1:DTR0). The device simulator is re-executed by TLC.",
     "DESIGN.md §5 C13")
 
+CLAIMED["C14"] = (
+    "model_checking",
+    "TLA+ Tc unit of IEC 62386-209 (Gear209) with set / limit / query laws checked by TLC over all 65536 values; real "
+    "sequence traces re-executed on the model under the device type each command carries and judged by TLC (ColourJudge)",
+    "Model side exhaustive (65536 values x 3 destination kinds x 4 limit selectors); real side every 17th value + "
+    "boundaries (quick) / all 65536 x 4 destinations (thorough), all query selectors x stored values incl. MASK high "
+    "byte, silent / garbled answer at each byte, out-of-range and wrong-type arguments.",
+    "Trusted: TLC; QUERY COLOUR VALUE modelled as MSB answered / LSB left in DTR0 for every selector. The unit "
+    "simulator is re-executed by TLC.",
+    "DESIGN.md §5 C14")
+
 NOT_YET = {}
 
 
